@@ -94,6 +94,42 @@ def kwarg(call: ast.Call, name: str):
 # program model
 # ---------------------------------------------------------------------------
 
+EXTERNAL_RECEIVERS = {
+    # DB-API / Django objects: never package classes
+    'cursor', '_cursor', 'connection', '_connection', 'connections',
+    'stdout', 'stderr', 'logger', 'logging', 'os', 'recorder',
+    'schema_editor', 'introspection', 'ops', 'creation', 'style', 'fp',
+    'transaction', 'models', 'settings', 'six', 'copy', 're', 'itertools',
+}
+
+
+def _compatible(m: 'Func', call: ast.Call) -> bool:
+    """Could *call* bind to method *m* (arity / keyword names)?"""
+    a = m.node.args
+    is_static = 'staticmethod' in (m.decorators or [])
+    pos = [x.arg for x in a.posonlyargs + a.args]
+    if not is_static and pos:
+        pos = pos[1:]
+    kwonly = [x.arg for x in a.kwonlyargs]
+    if any(isinstance(x, ast.Starred) for x in call.args) or \
+            any(k.arg is None for k in call.keywords):
+        return True
+    npos = len(call.args)
+    if npos > len(pos) and a.vararg is None:
+        return False
+    for k in call.keywords:
+        if k.arg not in pos and k.arg not in kwonly and a.kwarg is None:
+            return False
+    # required params must be supplied
+    ndefaults = len(a.defaults)
+    required = pos[:len(pos) - ndefaults] if ndefaults else pos
+    supplied = set(pos[:npos]) | {k.arg for k in call.keywords}
+    for r in required:
+        if r not in supplied:
+            return False
+    return True
+
+
 class Func(object):
     """A function or method."""
 
@@ -500,8 +536,14 @@ class Program(object):
             rb = self.resolve_expr(mod, recv)
             if isinstance(rb, tuple) and rb[0] == 'external':
                 return [], 'external'
-            # unknown receiver: every package method of that name
-            cands = list(self._methods_by_name.get(f.attr, []))
+            # receivers that are known to be foreign objects
+            rname = dotted(recv) or ''
+            if rname.split('.')[-1] in EXTERNAL_RECEIVERS:
+                return [], 'external'
+            # unknown receiver: every package method of that name whose
+            # signature is compatible with the call
+            cands = [m for m in self._methods_by_name.get(f.attr, [])
+                     if _compatible(m, call)]
             if cands:
                 return cands, 'approx'
             return [], 'unknown'
@@ -511,10 +553,35 @@ class Program(object):
         return [n for n in walk_no_nested(func.node, include_lambda=True)
                 if isinstance(n, ast.Call)]
 
+    def property_reads(self, func: Func) -> List[Tuple[ast.Attribute, List[Func]]]:
+        """Attribute loads that may invoke a package @property getter."""
+        if not hasattr(self, '_props'):
+            self._props: Dict[str, List[Func]] = {}
+            for f in self.all_funcs():
+                if f.cls is not None and any(
+                        d in ('property', 'cached_property')
+                        for d in f.decorators if d):
+                    self._props.setdefault(f.name, []).append(f)
+        out = []
+        owner = func.cls
+        for n in walk_no_nested(func.node, include_lambda=True):
+            if isinstance(n, ast.Attribute) and isinstance(n.ctx, ast.Load) \
+                    and n.attr in self._props:
+                cands = self._props[n.attr]
+                if isinstance(n.value, ast.Name) and n.value.id == 'self' \
+                        and owner is not None:
+                    m = owner.find_method(n.attr)
+                    cands = [m] if m in cands else []
+                if cands:
+                    out.append((n, cands))
+        return out
+
     def reachable_funcs(self, roots: Iterable[Func], follow_approx=True,
-                        stop=None, max_depth=None) -> Dict[str, Func]:
+                        stop=None, max_depth=None, skip_call=None
+                        ) -> Dict[str, Func]:
         """Transitive callees (by fq)."""
         seen: Dict[str, Func] = {}
+        parent: Dict[str, tuple] = {}
         work = [(r, 0) for r in roots]
         while work:
             f, d = work.pop()
@@ -526,13 +593,36 @@ class Program(object):
             if max_depth is not None and d >= max_depth:
                 continue
             for c in self.calls_in(f):
+                if skip_call is not None and skip_call(f, c):
+                    continue
                 targets, prec = self.resolve_call(f, c)
                 if prec == 'approx' and not follow_approx:
                     continue
                 for t in targets:
                     if t.fq not in seen:
                         work.append((t, d + 1))
+                        parent.setdefault(t.fq, (f, c))
+            for a, cands in self.property_reads(f):
+                for t in cands:
+                    if t.fq not in seen:
+                        work.append((t, d + 1))
+                        parent.setdefault(t.fq, (f, a))
+        self.last_parents = parent
         return seen
+
+    def call_chain(self, fq: str) -> List[str]:
+        """Call chain (root first) that reached *fq* in the last
+        reachable_funcs() run."""
+        out = [fq]
+        cur = fq
+        parent = getattr(self, 'last_parents', {})
+        n = 0
+        while cur in parent and n < 40:
+            f, c = parent[cur]
+            out.append('%s (%s)' % (f.fq, f.loc(c)))
+            cur = f.fq
+            n += 1
+        return list(reversed(out))
 
     def callers_of(self, target_name: str) -> List[Tuple[Func, ast.Call]]:
         """All call sites whose callee's last name component matches."""
